@@ -82,12 +82,18 @@ type User struct {
 	Age  int
 }
 
-func (User) IsNode()            {}
-func (u User) GetID() string    { return u.ID }
-func (User) IsPet()             {}
+// Label is the Go method the schema field User.label is bound to: same parameter names, another order.
+func (u User) Label(last, sep, first string) string {
+	return "first=" + first + "|last=" + last + "|sep=" + sep
+}
+
+func (User) IsNode()         {}
+func (u User) GetID() string { return u.ID }
+func (User) IsPet()          {}
 
 type Box struct {
-	ID string
+	ID    string
+	Label *string
 }
 
 type Item struct {
